@@ -22,6 +22,12 @@ PKG_ARCH = "internal/archive"
 SIZEMAX = 48
 
 
+def scaled(n):
+    """VERIF_SCALE (default 1) scales the number of scenarios run against the real code; for
+    self-tests on an overloaded machine only, the registered tiers use 1."""
+    return max(10, int(n * float(os.environ.get("VERIF_SCALE") or 1)))
+
+
 def text(cps):
     return "".join(chr(c) for c in cps)
 
@@ -123,7 +129,7 @@ def run(ctx):
         raise vk.Inconclusive("archive scripts printed (%d) != scenarios enumerated (%d)" % (len(arch_scripts), res.distinct // 2))
     all_dir, all_arch = len(dir_scripts), len(arch_scripts)
     rnd = random.Random(ctx.seed)
-    nd, na = ctx.pick(120, 600), ctx.pick(120, 600)
+    nd, na = scaled(ctx.pick(120, 600)), scaled(ctx.pick(120, 600))
     if len(dir_scripts) > nd:
         dir_scripts = rnd.sample(dir_scripts, nd)
     if len(arch_scripts) > na:
@@ -160,7 +166,7 @@ def run(ctx):
         for f in (prog, phase):
             if os.path.exists(f):
                 os.remove(f)
-        env = dict(env, VERIF_OUT=trace, C15_RANDOM=ctx.pick(70, 300))
+        env = dict(env, VERIF_OUT=trace, C15_RANDOM=scaled(ctx.pick(70, 300)))
         t0 = time.time()
         rc, out = ctx.run_bin(binp, run_, env=env, timeout=6000)
         ctx.log("driver %s: rc=%d in %.1fs" % (name, rc, time.time() - t0))
